@@ -25,7 +25,7 @@ func TestVerifC12(t *testing.T) {
 		Assumptions: []string{"(n>0, io.EOF) and (n>0, nil) are the same outcome for Read (io.Reader allows both)", "race detector on"},
 		Units: func(tier vfTier, seed uint64) int {
 			if tier == vfThorough {
-				return 640
+				return 3200
 			}
 			return 32
 		},
